@@ -612,6 +612,65 @@ def run(ctx):
                         "application failures, no adjustments besides lookahead / send_bytes, no maintenance()")
     fst["samples"] = fault_samples
 
+    # -- K-chanout: the byte-level output queue (Model/ChanOut.v over Model/Buffers.v) -------------------
+    from harness import chanout as HO
+    co_runner = ctx.runner("chanout", "ExtChanout.v")
+    cst = {"cases": 0, "ops_compared": 0, "would_wait": 0, "disagreements": 0, "spec_problems": 0, "dist": {}, "big_cases": 0}
+    co_fail = []
+    co_nontrivial = set()
+    if co_runner is None:
+        ctx.oblige("extracted ChanOut model runner builds", False, "see notes")
+    else:
+        n_co = 30000 if thorough else 2500
+        co_cases = [HO.gen_case(rng, big=(i % 20 == 19)) for i in range(n_co)]
+        for k in range(0, n_co, 500):
+            chunk = co_cases[k:k + 500]
+            answers = co_runner.query([HO.model_line(c) for c in chunk])
+            for c, a in zip(chunk, answers):
+                rows, problems = HO.run_real(c)
+                cst["cases"] += 1
+                cst["big_cases"] += 1 if c["cfg"][0] == 8192 else 0
+                cst["ops_compared"] += len(rows)
+                HO.case_stats(c, cst["dist"])
+                if "would-wait" in rows:
+                    cst["would_wait"] += 1
+                if any(r.startswith("wire=") and not r.startswith("wire=- ") for r in rows):
+                    co_nontrivial.add(hashlib.sha1(json.dumps(c, sort_keys=True).encode()).hexdigest())
+                d = HO.compare(rows, a)
+                if problems:
+                    cst["spec_problems"] += 1
+                    co_fail.append(("spec", c, problems[0]))
+                if d is not None:
+                    cst["disagreements"] += 1
+                    co_fail.append(("model", c, d))
+        for kind, c, d in sorted(co_fail, key=lambda t: (t[0] != "spec", len(json.dumps(t[1]))))[:3]:
+            def still(c2, kind=kind):
+                rows2, pr2 = HO.run_real(c2)
+                if kind == "spec":
+                    return bool(pr2)
+                return HO.compare(rows2, co_runner.query([HO.model_line(c2)])[0]) is not None
+            c_min = HO.shrink(c, still)
+            rows2, pr2 = HO.run_real(c_min)
+            d2 = pr2[0] if kind == "spec" and pr2 else HO.compare(rows2, co_runner.query([HO.model_line(c_min)])[0])
+            if kind == "spec":
+                what = "output queue of the real channel (write_soon / _flush_some, single thread): operation %d: %s" % (d2[0] + 1, d2[1])
+                rep = {"kind": "chanout", "case": c_min, "against": "spec", "expected": "socket bytes ++ queued bytes = written bytes, in order; no empty send; total_outbufs_len exact; last buffer writable",
+                       "observed": d2[1], "failing_input_found": True}
+            else:
+                what = "real write_soon / _flush_some and Model/ChanOut.v disagree at operation %d: model %s | real %s" % (d2[0] + 1, d2[1], d2[2])
+                rep = {"kind": "chanout", "case": c_min, "against": "model", "expected": d2[1], "observed": d2[2],
+                       "failing_input_found": False,
+                       "note": "the theorems C04_out_bytes_fifo / C04_flush_some speak for the code only while this correspondence holds; the specification was judged on the same run and did not complain"}
+            ctx.report("chanout:%s:%s" % (kind, hashlib.sha1(json.dumps(c_min, sort_keys=True).encode()).hexdigest()[:8]), what, rep)
+        ctx.oblige("K-chanout: the real HTTPChannel.write_soon / _flush_some over real OverflowableBuffer / ReadOnlyFileBasedBuffer objects agree with "
+                   "Model/ChanOut.v after every operation (socket bytes, how the flush ended, its return value, total_outbufs_len, current_outbuf_count, "
+                   "kind and length of every output buffer) on %d histories / %d operations" % (cst["cases"], cst["ops_compared"]),
+                   cst["disagreements"] == 0 and cst["cases"] > 0)
+        ctx.oblige("S-chanout: on the same real runs the socket's bytes followed by a final drain are exactly the written bytes in order, no empty chunk is "
+                   "offered to send(), total_outbufs_len equals the sum of the buffers' lengths after every operation and the last buffer is writable",
+                   cst["spec_problems"] == 0)
+    cst["distinct_nontrivial"] = len(co_nontrivial)
+
     ctx.oblige("K-chanpipe: every operation of every real trace is a step of Model/ChanPipe.v with the same label "
                "and the same abstract state (%d traces, %d steps)" % (stats["validated_traces"], stats["validated_steps"]),
                conf_ok[0] and stats["validated_traces"] > 0)
@@ -646,6 +705,7 @@ def run(ctx):
         "buffer_representation_search": bst,
         "segmentation_search": sst,
         "application_fault_and_reaper_search": fst,
+        "byte_level_output_queue": cst,
         "f18_regression": {"stored_schedule_clean": f18_clean, "model_old_shape_refuted": model_old_refuted,
                            "model_current_shape_ok": model_new_ok},
     })
@@ -653,6 +713,18 @@ def run(ctx):
 
 def replay(data):
     H = _H()
+    if data.get("kind") == "chanout":
+        from harness import chanout as HO
+        rows, problems = HO.run_real(data["case"])
+        for op, r in zip(data["case"]["ops"], rows):
+            print("  %-40s -> %s" % (json.dumps(op)[:40], r))
+        print("specification now: %r" % (problems,))
+        d = None
+        rp = os.path.join(vcommon.VERIF, "ocaml", "chanout", "runner")
+        if os.path.exists(rp):
+            d = HO.compare(rows, vcommon.Runner(rp).query([HO.model_line(data["case"])])[0])
+            print("model comparison now: %r" % (d,))
+        return 1 if (problems or d) else 0
     if data.get("kind") == "monitor-buf":
         scn = H.BufScenario.from_json(data["scenario"])
         w = H.BufWorld(scn, schedule=data["choices"])
